@@ -105,8 +105,23 @@ def build_harness(profile="release", crate=HARNESS):
 # --------------------------------------------------------------------------------------
 # TLC
 
+_jtmp = None
+
+
+def java_tmpdir():
+    """TLC unpacks its standard modules into a fresh directory under java.io.tmpdir at every start and leaves
+    it behind; a check starts dozens of JVMs.  They get a directory of this process under work/, removed at exit."""
+    global _jtmp
+    if _jtmp is None:
+        import atexit
+        _jtmp = os.path.join(WORK, "jtmp_%d" % os.getpid())
+        os.makedirs(_jtmp, exist_ok=True)
+        atexit.register(shutil.rmtree, _jtmp, True)
+    return _jtmp
+
+
 def java_cmd(xmx="3g", serial=True):
-    return ["java", "-XX:+UseSerialGC" if serial else "-XX:+UseParallelGC", "-Xms256m", "-Xmx" + xmx,
+    return ["java", "-Djava.io.tmpdir=" + java_tmpdir(), "-XX:+UseSerialGC" if serial else "-XX:+UseParallelGC", "-Xms256m", "-Xmx" + xmx,
             "-Xss64m", "-cp", CP, "tlc2.TLC"]
 
 
